@@ -136,6 +136,30 @@ def spellings_npd(rng, truth, count):
     return out
 
 
+def dc_start_cases(rng):
+    """Directed: sweeps that start at DC (first frequency exactly 0, legal: only negative frequencies are invalid) for 1..4
+    ports, every unit, version 1 and version 2 framing, and NPD.  Yields (cid, kind, truth, sp, text, name)."""
+    units = ["HZ", "KHZ", "MHZ", "GHZ", "THZ"]
+    for n in (1, 2, 3, 4):
+        k = {1: 0, 2: 5, 3: 10, 4: 15}[n] + rng.choice([0, 1, 2])         # S, Y or Z with n ports (see gen_truth_ts)
+        truth = gen_truth_ts(rng, k)
+        assert truth["ports"] == n
+        truth["reference"] = None
+        truth["freqs"][0] = 0.0
+        sps = spellings_ts(rng, truth, 11)[1:]
+        for idx, sp in enumerate(sps):
+            sp["unit"] = units[idx % 5]
+            sp["version"] = 1 + (idx // 5) % 2
+            text = D.gen_touchstone(truth, sp, rng)
+            name = ("x.s%dp" % n) if sp["version"] == 1 else "x.ts"
+            yield ("dc%d_%d" % (n, idx), "ts", truth, sp, text, name)
+    for j, k in enumerate((2, 5, 8)):                                       # NPD: S, Y, A
+        truth = gen_truth_npd(rng, k)
+        truth["freqs"][0] = 0.0
+        for idx, sp in enumerate(spellings_npd(rng, truth, 3)):
+            yield ("dcn%d_%d" % (j, idx), "npd", truth, sp, D.gen_npd(truth, sp, rng), "x.npd")
+
+
 def compare(truth, L, kind, sp):
     """None or (class, text)."""
     n = truth["ports"]
@@ -217,6 +241,8 @@ def run(ctx):
                 name = ctx.rng.choice(["x.npd", "x.npd", "x.NPD", "plain"])
                 cid = "n%d_%d" % (k, j)
                 info[cid] = ("npd", truth, sp, text, name)
+    for cid, kind, truth, sp, text, name in dc_start_cases(ctx.rng):
+        info[cid] = (kind, truth, sp, text, name)
     for cid, (kind, truth, sp, text, name) in info.items():
         hexs = text.encode("latin-1").hex()
         cases.append((cid, ["new 0 -1 0 0 0", "load 0 %s %s" % (name, hexs), "dump 0"]))
